@@ -10,7 +10,9 @@ exact family, within a stated tolerance in the tolerance family).
 
 Inputs beyond plain value classes: `degenerate` (every pairing of the ways a side can be or become empty -
 genuinely empty, only infinite points, infinite + diagonal points, ...), per-side containers / dtypes / layouts
-(REPS, _arr), integer grids in the narrowest integer dtype, a few diagrams of 17-41 points, and call histories
+(REPS, _arr), integer grids in the narrowest integer dtype, float32 / float16 arrays whose arithmetic rounds or
+overflows in the narrow type (class narrow: the points are the numbers given, the spec is evaluated on their binary64
+values), a few diagrams of 17-41 points, and call histories
 (harness/history.py: `impl_call`, `_histories`): several calls in one interpreter on shared argument objects,
 each judged by the same predicate and the same model run.  Every case is called without and with matching=True
 (the flag spelled as keyword, positionally, numpy bool or 1; in histories also in the other order): the distance of
@@ -36,13 +38,20 @@ RULE = ("seeded generator; exact family: coordinates (k/4)*2^s, k in [-8,24], on
         "(|s| <= 3, or +-20 in class scale), sizes 0-6 per side (quick; a few up to 10) / up to 20 (thorough), "
         "classes {generic, empty_side, both_empty, repeated, diagonal, ties, inf, scale, near_tie, repaired, straddle, "
         "permuted, big, offset (grid shifted by +-sc*2^10..2^30, short bars), intgrid (integer coordinates as arrays of the "
-        "narrowest signed / unsigned integer dtype), large (4 quick / 30 thorough cases with 17, 23, 33 or 41 points on a side), "
+        "narrowest signed / unsigned integer dtype), narrow (float32 / float16 ARRAYS whose coordinates are random numbers of the "
+        "narrow type, so that sums / differences / halves round - or, for float16 bars longer than 65504, overflow - when "
+        "taken in the narrow type: styles unit, wide = small birth under a large death, kilo, mixmag = 1e-3..1e4 in one diagram, "
+        "straddle = births far below and deaths far above zero; both sides in one narrow type, float32 against float16, or a "
+        "narrow side against arbitrary doubles; the spec is the min-max cost of the points as given, i.e. of the binary64 values "
+        "of the narrow numbers, compared EXACTLY whenever all their differences are binary64 numbers (_exact64), else in the "
+        "tolerance family; about 25 of the 280 drawn cases plus a block of 40 quick / 600 thorough with 1-3 points a side; "
+        "a third of the call histories also hold one or two such diagrams in their pool), large (4 quick / 30 thorough cases with 17, 23, 33 or 41 points on a side), "
         "degenerate (each side one of {empty, one infinite point, several infinite points, infinite + diagonal points, "
         "infinite + finite points, finite points, diagonal points}: every ordered pair of kinds once per quick run, "
         "12 times per thorough run, plus random pairs)}; "
         "tolerance family (classes tol, decimal, tol_mag = scales 1e-8..1e-10 and short bars on offsets 1e3..1e6): random doubles; "
         "about a third of the cases hand each side over in its own representation out of {float64 array, list of lists, "
-        "tuple of tuples, list of row arrays, float32, narrowest int, narrowest uint, Fortran order, strided view, "
+        "tuple of tuples, list of row arrays, float32, float16, narrowest int, narrowest uint, Fortran order, strided view, "
         "read-only array} (a representation that cannot hold the values exactly falls back to float64); "
         "every case is called twice on the same argument objects, bottleneck(S, T) and bottleneck(S, T, matching=True), and "
         "the distance of EACH call (the first component under the flag) is compared with the min-max cost and with the model, "
@@ -69,10 +78,12 @@ TRUSTED_BASE = [
 ]
 ASSUMPTIONS = [
     "numpy semantics of isfinite masking, abs, maximum, fill_diagonal, unique, sort are as modelled",
-    "exact family: every float operation of the code is exact on the dyadic grid, so the float equals the model's rational",
+    "exact family: every float operation of the code is exact on the dyadic grid, so the float equals the model's rational "
+    "(class narrow: exact when taken in binary64 - all coordinates are multiples of one power of two g and below 2^51 g, "
+    "checked per case by _exact64 - although not exact in the float32 / float16 type the caller's array has)",
     "tolerance family: one rounding per matrix entry, bounded by 2^-50 * max|coordinate| (not proved)",
     "diagrams have birth <= death (the property speaks of persistence diagrams)",
-    "numpy converts float32 / integer arrays, tuples, row lists and non-contiguous / read-only arrays to float64 "
+    "numpy converts float32 / float16 / integer arrays, tuples, row lists and non-contiguous / read-only arrays to float64 "
     "without changing a value (the representations are only used when they hold the coordinates exactly)",
 ]
 # one more hash seed costs one implementation run (~2.5 s in the quick tier): the model runs are shared through _cache
@@ -93,7 +104,97 @@ def _dgm(rng, n, sc, **kw):
     return [_pt(rng, sc, **kw) for _ in range(n)]
 
 
+def _narrow(x, dt):
+    """x rounded to the nearest float32 ("f32") / float16 ("f16") number, as a Python float (no numpy here)."""
+    import struct
+    fmt = "<f" if dt == "f32" else "<e"
+    return struct.unpack(fmt, struct.pack(fmt, x))[0]
+
+
+def _exact64(vals):
+    """True when every difference (and half difference) of two of the numbers is a binary64 number: all of them
+    are multiples of one power of two g, and below 2^51 * g in magnitude."""
+    import math
+    vs = [abs(float(v)) for v in vals if v != "inf" and float(v) != 0.0]
+    if not vs:
+        return True
+    g = None
+    for v in vs:
+        m, e = math.frexp(v)            # v = m * 2^e, m has at most 53 bits
+        k = int(m * 2 ** 53)
+        low = e - 53 + ((k & -k).bit_length() - 1)
+        g = low if g is None else min(g, low)
+    return g > -1000 and max(vs) < 2.0 ** (g + 51)
+
+
+# Narrow floating-point diagrams: what one point of a side looks like.
+NARROW_STYLES = ["unit", "unit", "wide", "kilo", "mixmag", "straddle"]
+
+
+def _narrow_dgm(rng, n, dt, style):
+    """n points whose coordinates are float32 / float16 numbers that are NOT on a coarse grid: sums and differences of
+    two of them are, as a rule, not numbers of the narrow type (they are binary64 numbers, see _exact64)."""
+    top = 60000.0 if dt == "f16" else 3.0e6
+
+    def pt():
+        if style == "unit":
+            b = rng.uniform(0, 1)
+            d = b + rng.choice([rng.uniform(0, 1), rng.uniform(0, 1), rng.uniform(0, 0.05)])
+        elif style == "wide":         # a small birth under a large death: the difference rounds in the narrow type
+            b = rng.uniform(0, 0.3)
+            d = rng.uniform(1, 40)
+        elif style == "kilo":
+            b = rng.uniform(0, 1000)
+            d = b + rng.choice([rng.uniform(0, 1000), rng.uniform(0, 30)])
+        elif style == "mixmag":       # magnitudes from 1e-3 to the top of the range in one diagram
+            b = rng.uniform(0, 1) * 10.0 ** rng.randint(-3, 2)
+            d = b + rng.uniform(0, 1) * 10.0 ** rng.randint(-2, 4)
+        else:                           # straddle: births far below zero, deaths far above - the bar is longer than the
+            a = rng.uniform(0.3, 0.95) * top    # largest float16 number / than any coordinate
+            b, d = -a * rng.uniform(0.9, 1.0), a * rng.uniform(0.9, 1.0)
+        b, d = _narrow(b, dt), _narrow(min(d, top), dt)
+        return [b, max(b, d)]
+    return [pt() for _ in range(n)]
+
+
+def _narrow_case(rng, maxn, sides=True):
+    """Class narrow: float32 / float16 arrays whose arithmetic rounds (or overflows) in the narrow type.  The property
+    speaks of the points as given - every float16 / float32 number is a real number - so the spec is the min-max
+    cost of those points, to binary64 accuracy (family exact when all differences are binary64 numbers)."""
+    dt = rng.choice(["f32", "f32", "f16", "f16"])
+    style = rng.choice(NARROW_STYLES)
+    m, n = rng.randint(1, max(1, maxn)), rng.randint(0, maxn)
+    if style == "straddle" and rng.random() < 0.5:
+        n = rng.randint(0, max(0, m - 1))       # somebody has to go to the diagonal
+    S = _narrow_dgm(rng, m, dt, style)
+    u = rng.random()
+    if u < 0.65:        # both sides in the same narrow type
+        T, rT = _narrow_dgm(rng, n, dt, style), dt
+    elif u < 0.8:       # the other narrow type
+        rT = "f16" if dt == "f32" else "f32"
+        T = _narrow_dgm(rng, n, rT, style if not (style == "straddle" and rT == "f16") else "kilo")
+    else:               # mixed precision: arbitrary doubles on the other side
+        rT, T = rng.choice(["array", "array", "list"]), []
+        for q in _narrow_dgm(rng, n, dt, style):
+            b = q[0] * rng.uniform(0.9, 1.1)
+            T.append([b, b + (q[1] - q[0]) * rng.uniform(0.9, 1.1)])
+    if T and rT == dt and rng.random() < 0.25:      # one point of S again in T (a zero pairing cost among rounded ones)
+        T[rng.randrange(len(T))] = list(rng.choice(S))
+    if rng.random() < 0.15:
+        A = S if rng.random() < 0.5 else T
+        A.append([A[0][0] if A else 0.5, "inf"])
+    rS = dt
+    if rng.random() < 0.5:
+        S, T, rS, rT = T, S, rT, rS
+    fam = "exact" if _exact64([x for P in (S, T) for p in P for x in p]) else "tol"
+    c = _finish(rng, {"cls": "narrow", "family": fam, "S": S, "T": T}, sides)
+    c["repS"], c["repT"] = rS, rT
+    return c
+
+
 def _gen_case(rng, cls, maxn, sides=False):
+    if cls == "narrow":
+        return _narrow_case(rng, maxn, sides)
     sc = 2.0 ** rng.randint(-3, 3)
     m, n = rng.randint(0, maxn), rng.randint(0, maxn)
     fam = "exact"
@@ -264,7 +365,7 @@ def _side(rng, kind, sc):
 
 # Containers / dtypes / memory layouts in which a diagram is handed over (see _arr).  A representation
 # that cannot hold the values exactly (int for non-integers, f32 for wide mantissas) falls back to "array".
-REPS = ["array", "list", "tuple", "rows", "f32", "int", "uint", "fortran", "view", "readonly"]
+REPS = ["array", "list", "tuple", "rows", "f32", "f16", "int", "uint", "fortran", "view", "readonly"]
 
 
 # How the flag of the second call is spelled (C01's own cases; default "kw" = matching=True): positionally, as a
@@ -290,7 +391,7 @@ CLASSES = ["generic", "generic", "generic", "empty_side", "both_empty", "repeate
 
 # CLASSES is also the stream C06 draws from; the classes below are C01's own
 CLASSES_C01 = CLASSES + ["degenerate", "degenerate", "degenerate", "offset", "offset", "tol_mag", "tol_mag",
-                         "intgrid", "intgrid", "intgrid"]
+                         "intgrid", "intgrid", "intgrid", "narrow", "narrow", "narrow", "narrow"]
 LARGE_SIZES = [17, 23, 33, 41]      # just above 16 / 32 (nothing in the code is blocked; a threshold would be new)
 
 
@@ -338,9 +439,16 @@ def _histories(rng, n):
         pool += [_dgm(rng, rng.randint(1, 4), sc) for _ in range(rng.randint(1, 2))]
         rng.shuffle(pool)
         reps = [rng.choice(REPS) for _ in pool]
+        if rng.random() < 0.35:
+            # float32 / float16 diagrams whose arithmetic rounds in the narrow type (class narrow), next to the others
+            for _ in range(rng.randint(1, 2)):
+                dt = rng.choice(["f32", "f16"])
+                pool.append(_narrow_dgm(rng, rng.randint(1, 3), dt, rng.choice(NARROW_STYLES)))
+                reps.append(dt)
+        allx = _exact64([x for P in pool for p in P for x in p])
 
         def st(i, j):
-            c = _hist_step(rng, pool[i], pool[j])
+            c = _hist_step(rng, pool[i], pool[j], fam="exact" if allx else "tol")
             c["repS"], c["repT"] = reps[i], reps[j]
             if rng.random() < 0.3:
                 c["flag"] = rng.choice(["pos", "np", "int"])
@@ -387,6 +495,9 @@ def generate(rng, tier):
     for _ in range(150 if tier == "quick" else 2000):
         cases.append(_gen_case(rng, "decimal", 3, sides=True))
     quick = tier == "quick"
+    # float32 / float16 diagrams with rounding arithmetic: small and cheap, a block of their own
+    for _ in range(40 if quick else 600):
+        cases.append(_gen_case(rng, "narrow", 3, sides=True))
     cases += _degenerate_grid(rng, 1 if quick else 12)
     cases += _large(rng, 4 if quick else 30)
     cases += _histories(rng, 16 if quick else 150)
@@ -568,9 +679,12 @@ def _arr(P, rep):
         return [np.array(r, dtype=float) for r in rows]
     A = np.array(rows, dtype=float).reshape(-1, 2)
     fin = A[np.isfinite(A)]
-    if rep == "f32":
-        if (fin.astype(np.float32).astype(float) == fin).all():
-            return A.astype(np.float32)
+    if rep in ("f32", "f16"):
+        dt = np.float32 if rep == "f32" else np.float16
+        with np.errstate(over="ignore"):
+            ok = (fin.astype(dt).astype(float) == fin).all()
+        if ok:
+            return A.astype(dt)
     elif rep in ("int", "uint"):
         if fin.size == A.size and (fin == np.round(fin)).all() and (np.abs(fin) < 2.0 ** 52).all():
             # the narrowest dtype that holds the values: where differences wrap / overflow first
